@@ -206,6 +206,85 @@ def matrix_chunk(chunk, tier, seed):
     return ctx.result()
 
 
+def lookalike_payloads(tier, seed):
+    rng = random.Random(4545)
+    base = [x for x in settings_space('quick', seed) if len(x[0]) + len(x[1]) >= 3 and len(x) == 3]
+    picks = rng.sample(base, 40 if tier == 'quick' else 200)
+    return [picks[i:i + 5] for i in range(0, len(picks), 5)]
+
+
+def _variants(src, tgt, ex, rng):
+    """Settings that differ from (src, tgt, ex) in exactly one respect."""
+    out = []
+    ns, nt = len(src), len(tgt)
+    i = rng.randrange(ns + nt)
+    nodes = list(src) + list(tgt)
+    flipped = list(nodes)
+    flipped[i] = (nodes[i][0], not nodes[i][1])
+    out.append(('repeat flag of one connector', flipped[:ns], flipped[ns:], ex, None))
+    other = [t for t in TYPES if t != nodes[i]]
+    deg = list(nodes)
+    deg[i] = rng.choice(other)
+    out.append(('degrees of one connector', deg[:ns], deg[ns:], ex, None))
+    pairs = [(a, b_) for a in range(ns) for b_ in range(nt)]
+    if ex:
+        a, b_ = ex[0]
+        alt = [(a, q) for q in range(nt) if q != b_] + [(q, b_) for q in range(ns) if q != a]
+        if alt:
+            out.append(('another excluded pair', src, tgt, (rng.choice(alt),) + tuple(ex[1:]), None))
+        out.append(('no excluded pair', src, tgt, (), None))
+    else:
+        out.append(('an excluded pair', src, tgt, (rng.choice(pairs),), None))
+    out.append(('explicit limit on parallel connections', src, tgt, ex, rng.choice([1, 3])))
+    if ns == nt and src != tgt:
+        out.append(('sources and targets swapped', tgt, src, tuple((b_, a) for a, b_ in ex), None))
+    return out
+
+
+def lookalike_chunk(chunk, tier, seed):
+    """Settings that look alike are served one after the other with the library's caches switched on (same cache
+    directory): what is enumerated / counted for the later one is its own valid set."""
+    from adsg_core.optimization.assign_enc.matrix import (MatrixGenSettings, AggregateAssignmentMatrixGenerator,
+                                                           NodeExistencePatterns)
+    ctx = Ctx(None)
+    rng = random.Random(f'lookalike-{seed}-{chunk[0]}')
+
+    def mk(src, tgt, ex, par):
+        patterns = NodeExistencePatterns.get_all_combinations([True] * len(src), [True] * len(tgt))
+        return patterns, MatrixGenSettings([mk_node(s) for s in src], [mk_node(t) for t in tgt], excluded=list(ex) or None,
+                                           existence=patterns, max_conn_parallel=par)
+    for src, tgt, ex in chunk:
+        try:
+            _, s0 = mk(src, tgt, ex, None)
+            AggregateAssignmentMatrixGenerator(s0).get_agg_matrix(cache=True)
+        except Exception:  # noqa
+            continue
+        for what, vs, vt, vex, vpar in _variants(src, tgt, tuple(ex), rng):
+            label = f'src={vs} tgt={vt} excluded={list(vex)}' + (f' max_conn_parallel={vpar}' if vpar is not None else '')
+            wit = [label, f'served after src={src} tgt={tgt} excluded={list(ex)} (differs in: {what})']
+            try:
+                patterns, sv = mk(vs, vt, vex, vpar)
+                gen_ = AggregateAssignmentMatrixGenerator(sv)
+                agg = gen_.get_agg_matrix(cache=True)
+                n_all = AggregateAssignmentMatrixGenerator(sv).count_all_matrices(max_by_existence=False)
+            except Exception as e:  # noqa
+                ctx.check('C09.enumeration-independent-of-settings-served-before', False, wit, f'{type(e).__name__}: {e}', (label, what))
+                continue
+            total = 0
+            for existence in patterns.patterns:
+                src_ex = [existence.has_src(i) for i in range(len(vs))]
+                tgt_ex = [existence.has_tgt(j) for j in range(len(vt))]
+                ref, _ = brute(vs, vt, set(vex), src_ex, tgt_ex, vpar)
+                total += len(ref)
+                rows = {tuple(map(tuple, m.tolist())) for m in agg.get(existence, np.zeros((0, len(vs), len(vt))))}
+                ctx.check('C09.enumeration-independent-of-settings-served-before', rows == set(ref), wit + [[src_ex, tgt_ex]],
+                          f'enumerated {len(rows)}, valid {len(ref)}; missing {list(set(ref) - rows)[:2]} extra {list(rows - set(ref))[:2]}',
+                          (label, what, str(src_ex), str(tgt_ex)))
+            ctx.check('C09.count-independent-of-settings-served-before', int(n_all) == total, wit,
+                      f'count_all_matrices gives {n_all}, valid matrices over all patterns {total}', (label, what, 'count'))
+    return ctx.result()
+
+
 # ============================================================================================ C10: encoders
 
 def encoder_settings(tier, seed):
